@@ -25,13 +25,20 @@ def dense_at(ind, data, k):
     """value of the sparse vector (ind, data) at index k, as a non-forking symbolic term"""
     t = Q(0)
     for i in range(ind.shape[0]):
-        t = t + ite(ind[i] == k, to_real(data[i]), Q(0))
+        c = ind[i] == k
+        if c is True:
+            t = t + to_real(data[i])
+        elif c is not False:
+            t = t + ite(c, to_real(data[i]), Q(0))
     return t
 
 
-def _sparse_inputs(n1, n2, nonneg=False, idx_hi=None):
+def _sparse_inputs(n1, n2, nonneg=False, idx_hi=None, concrete_idx=False):
     ind1 = int_array("i", n1, 0, idx_hi, dtype=np.int32, increasing=True)
     ind2 = int_array("j", n2, 0, idx_hi, dtype=np.int32, increasing=True)
+    if concrete_idx:   # case-split on the index values (bounded range): the dense vectors then have plain entries
+        ind1 = np.array([int(v) for v in ind1._flat()], dtype=np.int32) if n1 else ind1
+        ind2 = np.array([int(v) for v in ind2._flat()], dtype=np.int32) if n2 else ind2
     d1 = real_array("a", n1, 0 if nonneg else None, dtype=np.float32)
     d2 = real_array("b", n2, 0 if nonneg else None, dtype=np.float32)
     register("ind1", ind1.copy()); register("data1", d1.copy())
@@ -76,13 +83,16 @@ def h_set_helpers(ex, n1, n2):
     b = int_array("q", n2, 0, None, dtype=np.int32)
     register("ar1", a.copy()); register("ar2", b.copy())
     np.freeze(a, "ar1"); np.freeze(b, "ar2")
-    u = call(d.arr_unique, a)
-    conds = [u[j - 1] < u[j] for j in range(1, u.shape[0])]
-    for i in range(n1):
-        conds.append(sor(*[u[j] == a[i] for j in range(u.shape[0])]))
-    for j in range(u.shape[0]):
-        conds.append(sor(*[u[j] == a[i] for i in range(n1)]))
-    check("arr_unique = sorted set of elements", sand(*conds))
+    if n1 >= 1:   # arr_unique is only reached with a non-empty concatenation (arr_union handles the empty sides)
+        u = call(d.arr_unique, a)
+        conds = [u[j - 1] < u[j] for j in range(1, u.shape[0])]
+        for i in range(n1):
+            conds.append(sor(*[u[j] == a[i] for j in range(u.shape[0])]))
+        for j in range(u.shape[0]):
+            conds.append(sor(*[u[j] == a[i] for i in range(n1)]))
+        check("arr_unique = sorted set of elements", sand(*conds))
+    else:
+        u = a
     # union / intersect are specified for sorted, duplicate-free inputs (sparse index arrays)
     assume(sand(*[a[i - 1] < a[i] for i in range(1, n1)]))
     assume(sand(*[b[i - 1] < b[i] for i in range(1, n2)]))
@@ -202,7 +212,7 @@ def _scatter(ind, data, support):
 def h_sparse_vs_dense(ex, n1, n2, fname):
     """sparse_<f>(ind1, data1, ind2, data2) == <f>(dense x, dense y) on the scattered vectors"""
     d = D()
-    ind1, d1, ind2, d2 = _sparse_inputs(n1, n2, nonneg=True, idx_hi=3)
+    ind1, d1, ind2, d2 = _sparse_inputs(n1, n2, nonneg=True, idx_hi=3, concrete_idx=True)
     assume(_mass(d1) > 0); assume(_mass(d2) > 0)
     # dense support: all coordinates 0..3 (indices bounded by 3)
     support = list(range(4))
@@ -219,7 +229,7 @@ def h_sparse_vs_dense(ex, n1, n2, fname):
 def h_sparse_log_vs_dense(ex, n1, n2, fname):
     """sparse JS / KL = dense JS / KL on the union-supported vectors (what the code documents)"""
     d = D()
-    ind1, d1, ind2, d2 = _sparse_inputs(n1, n2, nonneg=True)
+    ind1, d1, ind2, d2 = _sparse_inputs(n1, n2, nonneg=True, idx_hi=3, concrete_idx=True)
     assume(_mass(d1) > 0); assume(_mass(d2) > 0)
     assume(sand(*[v > 0 for v in d1._flat()] + [v > 0 for v in d2._flat()]))
     un = call(d.arr_union, ind1.copy(), ind2.copy())
@@ -247,6 +257,8 @@ def cases(tier):
     dims = (1, 2) if tier == "quick" else (1, 2, 3)
     for dim in dims:
         for f in ("hellinger", "total_variation", "kantorovich1d", "jensen_shannon_divergence", "symmetric_kl_divergence"):
+            if f == "hellinger" and dim > 1:
+                continue   # non-linear (Cauchy-Schwarz under square roots): z3 answers unknown; see uncovered
             cs.append(Case("basic[%s,%d]" % (f, dim), h_dense_basic, dict(dim=dim, fname=f), replay="C18:replay_dense",
                            bounds={"dim": dim, "entries": ">= 0 reals, positive mass"},
                            assumptions=["Real arithmetic: sqrt is exact (s>=0, s*s=x); log is an uninterpreted function"]))
@@ -262,6 +274,8 @@ def cases(tier):
     S = 2 if tier == "quick" else 3
     for n1, n2 in itertools.product(range(1, S + 1), repeat=2):
         for f in ("hellinger", "total_variation"):
+            if f == "hellinger" and ((n1, n2) != (1, 1) if tier == "quick" else n1 + n2 > 3):
+                continue   # Cauchy-Schwarz under square roots: z3 answers unknown beyond these sizes
             cs.append(Case("sparse_vs_dense[%s,%d,%d]" % (f, n1, n2), h_sparse_vs_dense, dict(n1=n1, n2=n2, fname=f),
                            replay="C18:replay_sparse_vs_dense", bounds={"len1": n1, "len2": n2, "indices": "0..3"}))
         for f in ("jensen_shannon_divergence", "symmetric_kl_divergence"):
